@@ -193,13 +193,14 @@ class C16(Check):
         if problems:
             ctx.disagree('translator vs live objects', 'Constants/productions', problems, 'Gen/C16SelConst.lean')
         ctx.notes['translator_crosscheck'] = problems or 'ok'
-        self.whitespace_table(ctx)
-        self.corpus(ctx, im)
-        self.grammar_stream(ctx, im)
-        self.malformed_stream(ctx, im)
-        self.list_stream(ctx, im)
-        self.rule_stream(ctx, im)
-        self.boundary(ctx, im)
+        phase = getattr(ctx, 'phase', lambda fn, *a, **k: fn(*a, **k))
+        phase(self.whitespace_table, ctx)
+        phase(self.corpus, ctx, im)
+        phase(self.grammar_stream, ctx, im)
+        phase(self.malformed_stream, ctx, im)
+        phase(self.list_stream, ctx, im)
+        phase(self.rule_stream, ctx, im)
+        phase(self.boundary, ctx, im)
 
     # -- the model's isspace table against CPython ------------------------------------------------
     def whitespace_table(self, ctx):
@@ -303,8 +304,8 @@ class C16(Check):
             text = s.selectorText
             nsd = dict(s._namespaces.namespaces)
             got2, s2 = im.sel(im.tokenize(text), nsd)
-            kf = KF_ESCAPE if pseudo_name_lost_escape(im, c['toks']) else None
-            if kf is None and not names_serialisable(s.seq):
+            kf = KF_SPACE if trailing_space_after_descendant(s.seq) else None
+            if not names_serialisable(s.seq):
                 # a name holding a character that only a hex escape can produce (`\\2a` is the IDENT `*`): the
                 # tokenizer resolves hex escapes and the serializer does not write them back — property C03, not C16
                 ctx.count('outside-C16:name-needs-hex-escape')
@@ -713,7 +714,7 @@ class C16(Check):
     def known(self, ctx, finding):
         """replay the witness of a known finding on the implementation: does it still fail?"""
         im = Impl()
-        if finding['id'] == KF_ESCAPE:
+        if finding['id'] == KF_SPACE:
             text = finding['witness']['data']['text']
             got, s = im.sel(im.tokenize(text), {})
             if not got.startswith('OK'):
@@ -765,24 +766,26 @@ class C16(Check):
             self.run(ctx)
 
 
-KF_ESCAPE = 'C16-pseudo-name-escape-dropped'
 _re = __import__('re')
-_PLAIN_NAME = _re.compile(r'^:{1,2}-?[A-Za-z_\u0080-\U0010ffff][A-Za-z0-9_\-\u0080-\U0010ffff]*\(?$')
-_NAME = _re.compile(r'^(?:[A-Za-z0-9_\-\u0080-\U0010ffff]|\\[^\n\r\f0-9a-fA-F])+$')
+_NMCH = r'(?:[A-Za-z0-9_\-\u0080-\U0010ffff]|\\[^\n\r\f0-9a-fA-F])'
+_NMST = r'(?:[A-Za-z_\u0080-\U0010ffff]|\\[^\n\r\f0-9a-fA-F])'
+_IDENT = _re.compile(r'^-?%s%s*$' % (_NMST, _NMCH))
+_PLAIN_NAME = _re.compile(r'^:{1,2}-?%s%s*\(?$' % (_NMST, _NMCH))
+_NAME = _re.compile(r'^%s+$' % _NMCH)
 
 
-def pseudo_name_lost_escape(im, toks):
-    """region of the known finding: a (functional) pseudo-class / pseudo-element or :not( written with a backslash
-    escape of a character that is not a name character: normalize() deletes the backslash, and the stored and
-    serialised name is no longer one identifier"""
-    try:
-        prepared = im.prepare(toks)
-    except Exception:               # noqa: BLE001
-        return False
-    for t in prepared:
-        if t[0] in ('pseudo-class', 'pseudo-element', 'negation') and '\\' in t[1]:
-            if not _PLAIN_NAME.match(im.css.Selector._normalize(t[1])):
-                return True
+KF_SPACE = 'C16-escaped-space-eats-descendant'
+
+
+def trailing_space_after_descendant(seq):
+    """region of the known finding: a name ending with an (escaped) space directly after a descendant combinator"""
+    items = list(seq)
+    for i in range(1, len(items)):
+        v = items[i].value
+        name = v[1] if isinstance(v, tuple) else v
+        if items[i - 1].type == 'descendant' and isinstance(name, str) and items[i].type not in ('S', 'descendant') \
+                and name.endswith(' '):
+            return True
     return False
 
 
@@ -791,16 +794,16 @@ def names_serialisable(seq):
     for it in seq:
         v, t = it.value, it.type
         if isinstance(v, tuple):
-            if v[1] != '*' and not _NAME.match(v[1]):
+            if v[1] != '*' and not _IDENT.match(v[1]):
                 return False
         elif t == 'id':
             if not (v.startswith('#') and _NAME.match(v[1:])):
                 return False
         elif t == 'class':
-            if not (v.startswith('.') and _NAME.match(v[1:])):
+            if not (v.startswith('.') and _IDENT.match(v[1:])):
                 return False
         elif t in ('attribute-selector', 'attribute-value', 'IDENT'):
-            if not _NAME.match(v):
+            if not _IDENT.match(v):
                 return False
         elif t in ('pseudo-class', 'pseudo-element', 'negation-start'):
             if not _PLAIN_NAME.match(v):
@@ -809,21 +812,22 @@ def names_serialisable(seq):
 
 
 def single_negation_args(seq, comment_cls):
-    """every :not( ... ) holds exactly one simple selector"""
+    """every :not( ... ) holds exactly one simple selector (an attribute selector or a functional pseudo with its
+    arguments is one)"""
     items = [(it.value, it.type) for it in seq if not isinstance(it.value, comment_cls)]
     i = 0
     while i < len(items):
         if items[i][1] == 'negation-start':
             j, n, depth = i + 1, 0, 0
             while j < len(items) and items[j][1] != 'negation-end':
-                t = items[j][1]
-                if t == 'attribute-start':
-                    depth += 1
-                    n += 1
-                elif t == 'attribute-end':
+                v, t = items[j]
+                if t in ('attribute-end', 'function-end'):
                     depth -= 1
                 elif depth == 0:
                     n += 1
+                    if t == 'attribute-start' or (t in ('pseudo-class', 'pseudo-element') and isinstance(v, str)
+                                                  and v.endswith('(')):
+                        depth += 1
                 j += 1
             if n != 1:
                 return False
